@@ -259,4 +259,106 @@ def etrace (v : Variant) : Live → List Ev → List (Live × Option Result)
   | _, [] => []
   | s, e :: es => let r := estep v s e; r :: etrace v r.1 es
 
+/-! ### Query wiring of virtual RIBs (C13, strengthened)
+
+A virtual RIB (`rib_type = "Virtual"` written by hand, or `GeneratedVirtual(k)`: the units
+`<rib>-vRIB-<k>` that `ConfigFile::new` generates from `filter_names = [..]`) has no store. Its HTTP
+processor answers a prefix query by `vrib_upstream.trigger(MatchPrefix …)` (`rib_unit/http/request.rs`):
+the trigger is sent into the *command channel* of the gate the `Link` was created for, and the request
+then waits for the `QueryResult` the physical RIB publishes.
+
+Every load creates a fresh gate — a fresh command channel — for every unit of the file
+(`manager.rs` `load_link` / `GATES`), and every `Link` of the new configuration holds the sender of
+such a fresh channel. A spawned unit runs on the fresh gate. A kept unit's running gate takes the
+receiving end of the fresh channel over (`comms.rs`, `GateCommand::Reconfigure`:
+`*self.commands.write().await = new_commands`); the channel it served before is dropped. So the
+command channel a running unit serves has a *generation*: the number of the successful load that
+created it. `Link::trigger` ignores a send error: a trigger into a channel nobody serves any more is
+lost and the query waits forever.
+
+The rib unit's `Reconfiguring` arm does `http_processor.set_vrib_upstream(new_vrib_upstream)`
+unconditionally — for every `rib_type` (`adopt = true` below; `adopt = false` is the shape of a
+unit that keeps the link it was started with). A virtual RIB itself is carried in `Live.units` as a
+rib unit with an empty store (`sources` = the unit to its west, never a bmp-tcp-in unit, so `deliver`
+never stores anything in it); the path it answers below obeys `reconfRib` like any rib unit's.
+-/
+
+/-- A virtual RIB's query link. -/
+structure VLink where
+  up : Name                -- the unit `vrib_upstream` names
+  gen : Nat                -- generation of the command channel the link sends into
+  deriving DecidableEq, Repr
+
+structure Wire where
+  gen : Nat                          -- number of successful loads so far
+  gates : List (Name × Nat)          -- running unit ↦ generation of the command channel it serves
+  links : List (Name × VLink)        -- running virtual RIB ↦ its query link
+  deriving DecidableEq, Repr
+
+def Wire.init : Wire := ⟨0, [], []⟩
+
+def lookupG (n : Name) : List (Name × Nat) → Option Nat
+  | [] => none
+  | e :: l => if e.1 = n then some e.2 else lookupG n l
+
+def lookupL (n : Name) : List (Name × VLink) → Option VLink
+  | [] => none
+  | e :: l => if e.1 = n then some e.2 else lookupL n l
+
+/-- `vrib_upstream` of unit `n` in the pre-processed document (serde reads the key for `type = "rib"` only). -/
+def upOf (d : RawDoc) (n : Name) : Option Name :=
+  match d.units.find? (fun c => c.name == n && c.ty == some 4) with
+  | some c => c.upstream
+  | none => none
+
+/-- The link a unit holds after it was started / reconfigured with the file's settings by load `g`. -/
+def linkOf (ups : Name → Option Name) (g : Nat) (n : Name) : List (Name × VLink) :=
+  match ups n with
+  | some u => [(n, ⟨u, g⟩)]
+  | none => []
+
+/-- One action of `spawn_internal`, seen from the wiring (`g` = the number of this load). -/
+def wexec (adopt : Bool) (ups : Name → Option Name) (g : Nat) (w : Wire) : Action → Wire
+  | .spawnU n _ => { w with gates := (n, g) :: w.gates.filter (fun e => e.1 ≠ n),
+                            links := linkOf ups g n ++ w.links.filter (fun e => e.1 ≠ n) }
+  | .reconfU n => { w with gates := (n, g) :: w.gates.filter (fun e => e.1 ≠ n),
+                           links := if adopt then linkOf ups g n ++ w.links.filter (fun e => e.1 ≠ n) else w.links }
+  | .termU n => { w with gates := w.gates.filter (fun e => e.1 ≠ n), links := w.links.filter (fun e => e.1 ≠ n) }
+  | _ => w
+
+/-- A prefix query to virtual RIB `n` is answered iff its link sends into the command channel its
+    upstream unit currently serves. -/
+def Wire.answers (w : Wire) (n : Name) : Bool :=
+  match lookupL n w.links with
+  | some l => lookupG l.up w.gates == some l.gen
+  | none => false
+
+structure LiveW where
+  live : Live
+  wire : Wire
+  deriving DecidableEq, Repr
+
+def LiveW.init : LiveW := ⟨Live.init, Wire.init⟩
+
+def upsOfLoad (v : Variant) (l : LLoad) : Name → Option Name :=
+  match preprocess v.mgr.unreach l.load.doc with
+  | .ok d => upOf d
+  | .panic => fun _ => none
+
+/-- One (re)load, with the wiring. A failed load touches neither. -/
+def wstep (adopt : Bool) (v : Variant) (s : LiveW) (l : LLoad) : LiveW × Result :=
+  let r := lstep v s.live l
+  match r.2 with
+  | .ok acts =>
+    (⟨r.1, acts.foldl (wexec adopt (upsOfLoad v l) (s.wire.gen + 1)) { s.wire with gen := s.wire.gen + 1 }⟩, .ok acts)
+  | res => (⟨r.1, s.wire⟩, res)
+
+def westep (adopt : Bool) (v : Variant) (s : LiveW) : Ev → LiveW × Option Result
+  | .load l => let r := wstep adopt v s l; (r.1, some r.2)
+  | e => let r := estep v s.live e; (⟨r.1, s.wire⟩, r.2)
+
+def wrun (adopt : Bool) (v : Variant) : LiveW → List Ev → LiveW
+  | s, [] => s
+  | s, e :: es => wrun adopt v (westep adopt v s e).1 es
+
 end Rotonda.Reconf
